@@ -784,6 +784,11 @@ func (fc *FnCtx) evalCall(env *specEnv, x *ast.CallExpr) Val {
 		}
 		ns := fc.sortByName(env, id.Name)
 		return Val{T: arg(1).T, Sort: ns.sort, Ty: ns.ty}
+	case "bytearr":
+		// bytearr(a): the content (index -> byte) of the byte array with id a, for frame clauses
+		a := arg(0)
+		k := fc.elemKey(types.Typ[types.Uint8])
+		return Val{T: app("select", fc.heapGet(env.st, k), a.T), Sort: "(Array Int Int)"}
 	case "arrid":
 		return Val{T: slArr(arg(0).T), Sort: sortInt, Ty: types.Typ[types.Int]}
 	case "offof":
